@@ -66,7 +66,7 @@ REQUIRED = [
 KS = list(range(1, 17))
 AMINOS = "ACDEFGHIKLMNPQRSTVWY"
 PRODUCTS = ["T1PKS", "NRPS", "terpene", "RiPP-like"]
-RECORD_FNS = ["echo", "sanitise", "ensure", "cds_probe", "raw_sanitise", "raw_ensure", "pre_process"]
+RECORD_FNS = ["echo", "sanitise", "ensure", "cds_probe", "raw_sanitise", "raw_ensure", "pre_process", "children_echo"]
 EXC_KINDS = ["ValueError", "KeyError", "AntismashInputError", "C18Error", "ZeroDivisionError"]
 
 
@@ -247,6 +247,7 @@ FLAVOURS = {
     "ensure": ["plain", "plain", "annotated", "regions", "skipped"],
     "raw_ensure": ["plain", "plain", "annotated", "regions", "skipped"],
     "cds_probe": ["regions", "regions", "annotated"],
+    "children_echo": ["regions", "regions", "annotated"],
     "pre_process": ["plain", "plain", "annotated", "blank", "plain"],
 }
 
@@ -532,6 +533,12 @@ def check_record(ctx, book, sc, ev):  # pylint: disable=too-many-return-statemen
     n, k, fn = sc["n"], sc["k"], sc["fn"]
     ctx.count("op:record")
     ctx.count(f"op:record:{fn}")
+    if ev["outcome"] == "build_failed" and ev.get("exc_type") not in ("ValueError", "SecmetInvalidInputError"):
+        # building and warming the records is real antiSMASH code: a refusal (ValueError) is the layout's business,
+        # anything else is a crash in what the batch was about to hand to the workers
+        ctx.violate("record-for-the-batch-crashes-while-built",
+                    dict(base_facts(sc), exception=ev.get("exc_type"), message=ev.get("exc_msg")), sc)
+        return False
     if ev["outcome"] == "build_failed":
         ctx.count("skipped:record_build_failed")
         if len(ctx.notes) < 5:
@@ -540,6 +547,11 @@ def check_record(ctx, book, sc, ev):  # pylint: disable=too-many-return-statemen
     shapes = ev.get("shapes", [])
     seq_raised = ev.get("seq_outcome") == "raised"
     facts = base_facts(sc)
+    if ev["outcome"] == "not_picklable":
+        ctx.violate("record-content-crosses-the-process-boundary",
+                    dict(facts, what=ev.get("what"), index=ev.get("index"), exception=ev.get("exc_type"),
+                         message=ev.get("exc_msg")), sc)
+        return False
     if seq_raised and ev["outcome"] == "returned":
         ctx.violate("sequential-raised-parallel-returned", dict(facts, sequential_exception=ev.get("seq_exc")), sc)
         return False
